@@ -5,6 +5,7 @@ prefix of 0x314159265359 that is a suffix of the input'), every entry of the
 byte automaton against eight bit steps; (b) scan() on buffers with the pattern
 planted at every bit offset, over many backgrounds (near misses, repeated
 prefixes, overlapping copies), every start bit and skip distance."""
+import os
 from lib import common, codecx
 
 LEVEL = 'model_checking'
@@ -24,6 +25,59 @@ def run(tier):
                 'and no complete occurrence at or after the point the scanner may begin (skip rounded up to a word) is passed over; '
                 'distinct_nontrivial = calls that reported a candidate',
     })
+    # (c) whole program: what scan() finds must also come out of do_scan()'s loop over an input block.  Streams whose
+    # first block ends in a planted header, directly followed by the genuine header of the second block, which ends
+    # 0..15 bits before an input-block boundary (the last words of an input block), and a third block; under the
+    # strict-priority schedulers with one priority-change point the scanner gets ahead of the parser, and then every
+    # genuine later header that lies wholly inside one input block must be found and adopted by the parser in at
+    # least one explored execution.
+    from lib import bzgen, bzref, lbzx, sched
+    from lib.bzgen import Block
+    junk = format(bzgen.BLOCK_MAGIC, '048b') + '0' * 32
+    cells = []
+    for sh in range(0, 9):
+        for fill in (0, 1, 2, 3):
+            cb = bzgen.carrier([junk], fill, sh)
+            cb = Block(raw_syms=cb.raw_syms[:-2], tables=[bzgen.CARRIER_LENS, bzgen.CARRIER_LENS])   # the plant is the last thing before end-of-block
+            data = bzgen.build([([cb, Block(b'second'), Block(b'third block')], 1)])[0]
+            offs = [b['bit_offset'] for st_ in bzref.inspect(data)['streams'] for b in st_['blocks']]
+            for g in range(8, 72, 4):
+                exp = sum(1 for o in offs[1:] if (o - 32) // (8 * g) == (o - 32 + 79) // (8 * g))
+                a = offs[1] - 32
+                end = ((a + 79) // (8 * g) + 1) * 8 * g
+                if a // (8 * g) == (a + 79) // (8 * g) and end - (a + 80) <= 15 and exp == 2:
+                    # bits left in the input block after the planted occurrence (it ends 9 bits, the end-of-block
+                    # code, before the genuine header): at most two unread words plus the bit buffer when <= 95
+                    left = end - (a - 9)
+                    cells.append((data, g, exp, 'shift%d fill%d in_granul=%d (%d bits left after the planted header)' % (sh, fill, g, left), left))
+    if tier == 'quick':
+        tight = [c for c in cells if c[4] <= 95]
+        rest = [c for c in cells if c[4] > 95]
+        cells = tight[:: max(1, len(tight) // 8)] + rest[:: max(1, len(rest) // 3)]
+    cells = [c[:4] for c in cells]
+    nexec = 0
+    d = common.scratch('c14w')
+    for i, (data, g, exp, desc) in enumerate(cells):
+        if chk.left() < 20:
+            chk.cap('deadline: whole-program scanner cells from %s on not run' % desc)
+            break
+        pth = os.path.join(d, 'in%d' % i)
+        open(pth, 'wb').write(data)
+        r = lbzx.explore('fast', ['-d', '-n2'], bound=1, demote=1, nprio=5, jobs=16, stdin_path=pth, policy='prio:5',
+                         setenv={'LBZIP2_VERIF_IN_GRANUL': str(g)}, deadline=chk.left() - 5)
+        nexec += r['executions']
+        bad = [k for k in r['classes'] if not (k['kind'] == 'exit' and k['code'] == 0 and not (k['inv'] & ~64))]
+        if bad:
+            chk.violation('C14|whole|abnormal|' + desc, 'decompressing the scanner test stream (%s): %s' % (desc, lbzx.cls_str(bad[0])),
+                          {'engine': 'lbzx', 'cmdline': ' '.join(r['cmd']), 'stdin_hex': data.hex()})
+        elif r['complete'] and r['events_max']['x-parse-adopt'] < exp:
+            chk.violation('C14|whole|missed|' + desc.split(' in_granul')[0],
+                          'the header of a block that lies wholly inside one input block (it ends %s bits before the block end, right after another '
+                          'occurrence of the pattern) is never found by the scanner: at most %d of %d later blocks adopted in %d executions '
+                          '(all priority orders x one priority change), %s' % ('0..15', r['events_max']['x-parse-adopt'], exp, r['executions'], desc),
+                          {'engine': 'lbzx', 'cmdline': ' '.join(r['cmd']), 'stdin_hex': data.hex()})
+    chk.leg('whole-program-scanner', cells=len(cells), executions=nexec)
+    chk.cov['evaluations'] += nexec
     chk.sample({'pattern': '0x314159265359', 'product_states': st.get('product_states'), 'scan_calls': st.get('scan_calls')})
     chk.assumptions += ['an occurrence inside the region the caller asked to skip (rounded up to the next 32-bit word) need not be reported',
                         'occurrences straddling two input blocks are out of scope (property statement)']
